@@ -123,12 +123,17 @@ IgnoredCCS(q, m) == Tls13 /\ m = "CCS" /\ q # "OPEN" /\ (Client \/ q # "S_CH")
 
 \* messages whose content is cryptographically bound to the transcript: a replayed copy
 \* cannot verify even where its type is admissible (only reachable for copies: "FIN")
+\* TLS <= 1.2 (RFC 5246 7.4.1.1): a HelloRequest "will be ignored by the client if the client is currently
+\* negotiating a session" (it is not part of the transcript either) - the protocol allows the client to go on;
+\* refusing it is the stricter choice and equally fine
+IgnoredHREQ(q, m) == ~Tls13 /\ Client /\ m = "HREQ" /\ q # "OPEN"
+
 RECURSIVE Run(_, _, _, _)
 \* returns <<final state or "REJECT", number consumed, hsDone, app>>
 Run(q, s, n, sawCert) ==
   IF s = <<>> THEN <<q, n, q = "OPEN", FALSE>>
   ELSE LET m == Head(s) IN
-    IF IgnoredCCS(q, m) THEN Run(q, Tail(s), n + 1, sawCert)
+    IF IgnoredCCS(q, m) \/ IgnoredHREQ(q, m) THEN Run(q, Tail(s), n + 1, sawCert)
     ELSE IF m \notin Admit(q) THEN <<"REJECT", n + 1, q = "OPEN", FALSE>>
     ELSE IF q = "OPEN" /\ m = "APP" THEN <<"OPEN", n + 1, TRUE, TRUE>>
     ELSE LET q1 == NextQ(q, m)
